@@ -362,6 +362,16 @@ def build_rust(features=None):
     return dict(xcp=os.path.join(TARGET, "debug", "xcp"), probe=os.path.join(TARGET, "debug", "probe"))
 
 
+def build_rust_release():
+    """xcp built with --release: integer overflow WRAPS there instead of panicking — arithmetic at the edges of u64 behaves
+    differently from the debug build every other check uses."""
+    with locked("cargo"):
+        r = run(["cargo", "build", "--offline", "--release", "--bin", "xcp"], cwd=REPO, env=CARGO_ENV, timeout=2400)
+        if r.returncode != 0:
+            raise BuildError("xcp does not build with --release:\n" + r.stdout[-3000:])
+    return os.path.join(TARGET, "release", "xcp")
+
+
 def build_rust_fallback():
     """xcp built without the Linux backend (libfs/src/fallback.rs)."""
     tdir = os.path.join(BUILD, "target-fallback")
